@@ -25,8 +25,8 @@ def rule_of(pid):
 
 CHECKS = {
     "C01": hist("TestC01", 6000, 40, 20000, 60,
-                extra_quick=[{"test": "TestC01RuneProbes", "checks": 3000, "timeout": 600}, {"test": "TestScaleC01", "checks": 1, "shards": 4, "timeout": 600}, {"test": "TestC01", "variant": "386", "checks": 1500, "steps": 40, "timeout": 600}, {"test": "TestClosureC01", "timeout": 600}],
-                extra_thorough=[{"test": "TestC01RuneProbes", "checks": 30000, "timeout": 1200}, {"test": "TestScaleC01", "checks": 3, "shards": 8, "timeout": 1800}, {"test": "TestC01", "variant": "386", "checks": 10000, "steps": 60, "shards": 2, "timeout": 3000}],
+                extra_quick=[{"test": "TestC01RuneProbes", "checks": 3000, "timeout": 600}, {"test": "TestHugeC01", "checks": 2, "timeout": 600}, {"test": "TestKeyLengthsC01", "checks": 3, "timeout": 600}, {"test": "TestScaleC01", "checks": 1, "shards": 4, "timeout": 600}, {"test": "TestC01", "variant": "386", "checks": 1500, "steps": 40, "timeout": 600}, {"test": "TestClosureC01", "timeout": 600}],
+                extra_thorough=[{"test": "TestC01RuneProbes", "checks": 30000, "timeout": 1200}, {"test": "TestHugeC01", "checks": 12, "timeout": 1200}, {"test": "TestKeyLengthsC01", "checks": 12, "timeout": 1200}, {"test": "TestScaleC01", "checks": 3, "shards": 8, "timeout": 1800}, {"test": "TestC01", "variant": "386", "checks": 10000, "steps": 60, "shards": 2, "timeout": 3000}],
                 kf_test="TestKF_C01",
                 essential=["absent_proper_prefix_of_stored", "absent_shares_prefix_gt10", "reinsert_after_delete",
                            "has_node16", "has_node48", "has_node256", "lost_node48", "lost_node256", "inspath_pathsplit_long"]),
@@ -35,7 +35,8 @@ CHECKS = {
                 extra_thorough=[{"test": "TestScaleC02", "checks": 3, "shards": 8, "timeout": 1800}, {"test": "TestC02", "variant": "386", "checks": 8000, "steps": 60, "shards": 2, "timeout": 3000}],
                 essential=["scan_ge3_after_delete", "has_node16", "has_node48", "has_node256", "lost_node48", "lost_node256"]),
     "C03": hist("TestC03", 6000, 40, 20000, 60,
-                extra_quick=[{"test": "TestClosureC03", "timeout": 600}],
+                extra_quick=[{"test": "TestHugeC03", "checks": 3, "timeout": 600}, {"test": "TestClosureC03", "timeout": 600}],
+                extra_thorough=[{"test": "TestHugeC03", "checks": 12, "timeout": 1200}],
                 essential=["range_nontrivial", "range_bound_absent", "range_reversed", "range_bounds_lcp_gt10", "range_empty_tree"]),
     "C04": hist("TestC04", 6000, 40, 15000, 60, kf_test="TestKF_C04",
                 extra_quick=[{"test": "TestClosureC04", "timeout": 600}],
@@ -49,7 +50,8 @@ CHECKS = {
                 extra_thorough=[{"test": "TestScaleC06", "checks": 6, "shards": 16, "timeout": 1800}],
                 essential=["inspath_empty", "inspath_leafsplit", "inspath_pathsplit", "inspath_pathsplit_long", "inspath_childadd", "delete_absent"]),
     "C08": hist("TestC08", 5000, 40, 15000, 60,
-                extra_quick=[{"test": "TestClosureC08", "timeout": 600}],
+                extra_quick=[{"test": "TestKeyLengthsC08", "checks": 6, "timeout": 600}, {"test": "TestClosureC08", "timeout": 600}],
+                extra_thorough=[{"test": "TestKeyLengthsC08", "checks": 24, "timeout": 1200}],
                 essential=["equal_primary_pair", "nondefault_collator", "delete_present", "has_long_path"]),
     "C09": hist("TestC09", 3000, 40, 8000, 60,
                 extra_quick=[{"test": "TestClosureC09", "timeout": 600}],
